@@ -256,7 +256,7 @@ enum cc_stat cc_deque_add_at(CC_Deque *deque, void *element, size_t index)
         }
         deque->first = (deque->first - 1) & c;
     } else {
-        if (p > l || l == c) {
+        if (p > l) {
             /* _________________________________
              * | 1 | . | . | 6 | 5 | 4 | 3 | 2 |
              * ---------------------------------
